@@ -613,6 +613,9 @@ class Union(Structure, metaclass=UnionMetaType):
             for field in value.__class__.__fields__:
                 if issubclass(field.type, Structure):
                     nested_value = getattr(value, field._name)
+                    if isinstance(nested_value, UnionProxy):
+                        # Already proxied by a nested union, proxy the structure itself for this union
+                        nested_value = nested_value.__target__
                     # Deeper levels must rebuild the union from the top level member they live in
                     proxy = UnionProxy(self, attr or field._name, nested_value)
                     object.__setattr__(value, field._name, proxy)
